@@ -92,23 +92,42 @@ CLAIMED = {
 
 # rules added after the first revision (validation rounds 2 and 3); appended to the level text / technique
 EXTRA = {
- 'C01': "Also: the error of the deferred final flush in storeBuilder.Close reaches its named result and every footer write gates success; a commit reads the version it clones inside the write hold that installs the result; with CURRENT present a new journal is reachable only through a successful replay.",
- 'C02': "Also: a commit's base version (GetSnapshot/GetCurrent/Clone) is read in the same write hold of the version-set mutex that installs the new version, so overlapping commits cannot clone one base.",
- 'C03': "Also: a source block hands out field data only on the found-edge of the lookup of the requested field id; level-1 inputs of an L0 compaction pass through a set keyed by file number (each file merged once); the compaction job is single-flight (flag claimed by CompareAndSwap, job started only by the claimer).",
- 'C04': "Also: the rollup job is single-flight (CAS claim, no blind Store(true)); the reference record is written, looked up and deleted under the same key (source store, source family id, file).",
- 'C05': "Also: a failed page acquisition leaves the write cursor untouched (no cursor store before a failing exit, page switch only after AcquirePage succeeded); index page and slot are computed from one sequence in writer, reader, GC and reopen, reopen using exactly the appended sequence; no page read in Get is reachable once the sequence was found out of range.",
- 'C06': "Also: every position written by an explicit reset is persisted in the same hold.",
- 'C07': "Also: a consumer group is empty only when appended <= ACKNOWLEDGED (never the consumed position), and the expiry of a partition asks every group: a family log is not collected while applied-but-unflushed entries exist.",
- 'C08': "Also: the queue-level barrier is the minimum over the groups' ACKNOWLEDGED positions (rule shared with C06); index<->sequence conversions of the replicator are inverse pairs (AppendIndex/ResetAppendIndex, ReplicaIndex/ResetReplicaIndex, ack without offset); every Ready exit of the handshake passed closeStream() (a stream of the failed period is never re-used).",
- 'C09': "Also: the flush life-cycle rules are shared with C10; the flush version handed to the resolver is the value read (under the lock) before the unlocked lookup.",
- 'C10': "Also: every index reader reads the memory stores BEFORE it picks the snapshot (entries only move memory -> kv store; the opposite order was genuine defects F9/F11, fixed); the universe of NOT is read for the tag key the atomic filter reports, also when nothing matched; an atom that matches no value yields an empty set, not an error; prepare-flush/flush life cycle of the four memory stores.",
- 'C11': "Also: memory is filtered before the file snapshot is taken; a not-found answer of one part (mutable / immutable memory database, files) never discards the other parts (genuine defect F12, fixed); flush writes one positional entry per field for every series (data or empty).",
- 'C12': "Also: the tag-value lookups return only the errors of the dictionary read: an OR/NOT atom that matches nothing on one node is an empty set, so the node does not answer 'not found' for series matching the rest of the condition.",
- 'C14': "Also: FixedOffsetDecoder.Unmarshal re-initialises every field on every exit, error exits included (callers keep using a decoder whose Unmarshal failed); the long-lived snappy reader resets its buffers and the s2 reader on every exit of Uncompress.",
- 'C15': "Also: FindFiles, getOverlappingInputs and FindReaders visit every candidate file (no break/return out of the scan other than a failing exit).",
- 'C16': "Also: a family group is the rows inside the family range of the group's first row, tested with TimeRange.Contains against the range built from that same timestamp, and handed out with that timestamp's family time; the line-protocol parser resets its row builder on every path from the loop test to the next line.",
- 'C17': "Also: no parser function takes a list from a helper that fills it inside a range over a map (e.g. strutil.DeDupStringSlice).",
+ 'C18': "Also: No loop of the three state handlers is left early (every listed shard is handled); ElectLeader never writes through memory shared with its arguments (alias walk over slices, local struct fields and φ-nodes; x[:0:0] is fresh, x[:0] is not).",
+ 'C01': "Also: the error of the deferred final flush in storeBuilder.Close reaches its named result and every footer write gates success; a commit reads the version it clones inside the write hold that installs the result; with CURRENT present a new journal is reachable only through a successful replay. The rollup's three manifest commits are ordered: the source's delete-rollup marks are committed before any target drops its reference marks (rule shared with C04).",
+ 'C02': "Also: a commit's base version (GetSnapshot/GetCurrent/Clone) is read in the same write hold of the version-set mutex that installs the new version, so overlapping commits cannot clone one base. The pending-output claim of a new table file is dropped only after the commit that makes a version reference the file (flush and compaction).",
+ 'C03': "Also: a source block hands out field data only on the found-edge of the lookup of the requested field id; level-1 inputs of an L0 compaction pass through a set keyed by file number (each file merged once); the compaction job is single-flight (flag claimed by CompareAndSwap, job started only by the claimer). The per-block scanner of the merge advances to its next container only when its current high key is SMALLER than the requested one and answers only on an exact match; the series merger positions each input block's decoder with that block's own slot range and writes only what the encoder produced over the target range.",
+ 'C04': "Also: the rollup job is single-flight (CAS claim, no blind Store(true)); the reference record is written, looked up and deleted under the same key (source store, source family id, file). The series merger decodes every input block over the block's own slot range (rule shared with C03).",
+ 'C05': "Also: a failed page acquisition leaves the write cursor untouched (no cursor store before a failing exit, page switch only after AcquirePage succeeded); index page and slot are computed from one sequence in writer, reader, GC and reopen, reopen using exactly the appended sequence; no page read in Get is reachable once the sequence was found out of range. The index entry of a message is written into the cached index page only when the cached page index was compared EQUAL to seq / indexItemsPerPage or just switched to it (the appended sequence can move backwards); data pages are mapped with a size provably >= the constant alloc rolls over at.",
+ 'C06': "Also: every position written by an explicit reset is persisted in the same hold. A consumer group is opened (positions lifted to the queue-wide ack read at that moment) and registered in ONE write hold of the map lock that Sync reads under.",
+ 'C07': "Also: a consumer group is empty only when appended <= ACKNOWLEDGED (never the consumed position), and the expiry of a partition asks every group: a family log is not collected while applied-but-unflushed entries exist. Once one group answered non-empty, IsExpire can only return false (path-sensitive boolean constant propagation); the id sequences are synced before the metadata dictionaries are flushed (rule shared with C09).",
+ 'C08': "Also: the queue-level barrier is the minimum over the groups' ACKNOWLEDGED positions (rule shared with C06); index<->sequence conversions of the replicator are inverse pairs (AppendIndex/ResetAppendIndex, ReplicaIndex/ResetReplicaIndex, ack without offset); every Ready exit of the handshake passed closeStream() (a stream of the failed period is never re-used). The leader's family log is reported expired only when every consumer group is drained: after a group answered non-empty no return of IsExpire can yield true (path-sensitive boolean constant propagation over the flag, whatever its form).",
+ 'C09': "Also: the flush life-cycle rules are shared with C10; the flush version handed to the resolver is the value read (under the lock) before the unlocked lookup. Schema flush marks persisted exactly what it wrote (genuine defect F16, fixed); the schema compaction merger accumulates each metric into a fresh object, or a reused one with every list Unmarshal appends to emptied first.",
+ 'C10': "Also: every index reader reads the memory stores BEFORE it picks the snapshot (entries only move memory -> kv store; the opposite order was genuine defects F9/F11, fixed); the universe of NOT is read for the tag key the atomic filter reports, also when nothing matched; an atom that matches no value yields an empty set, not an error; prepare-flush/flush life cycle of the four memory stores. Group-by resolution asks every grouping scanner of every tag key (no break / return out of the scan); the dictionary create path re-checks mutable AND immutable store under the write lock (rule shared with C09).",
+ 'C11': "Also: memory is filtered before the file snapshot is taken; a not-found answer of one part (mutable / immutable memory database, files) never discards the other parts (genuine defect F12, fixed); flush writes one positional entry per field for every series (data or empty). The end marker of a field's write buffer only grows (F13, fixed); AggType.Aggregate receives (stored, incoming) in write order at every call site (F14, fixed); a single-field block is delivered under the query position of its field (F15, fixed); a source block hands out field data only for a held field id (rule shared with C03); the per-family aggregator covers [(base+start)/ratio, (base+end)/ratio], both bounds mapped by the emitter's own expression.",
+ 'C12': "Also: the tag-value lookups return only the errors of the dictionary read: an OR/NOT atom that matches nothing on one node is an empty set, so the node does not answer 'not found' for series matching the rest of the condition. A per-shard plan node whose operator can produce ErrNotFound (call graph, CHA through interfaces, only functions that can hand a non-nil error back) is created with NewPlanNodeWithIgnore; the automatic group-by interval is derived from the ALIGNED time range, so planning the root's statement again on an intermediate node yields the same interval.",
+ 'C14': "Also: FixedOffsetDecoder.Unmarshal re-initialises every field on every exit, error exits included (callers keep using a decoder whose Unmarshal failed); the long-lived snappy reader resets its buffers and the s2 reader on every exit of Uncompress. The empty-slot sentinel is +Inf at the producer and at every consumer test (-Inf is a value); FixedOffsetEncoder.max is raised per element inside the scan over all offsets (FromValues) / per added value (Add); GetBlock accepts start == end.",
+ 'C15': "Also: FindFiles, getOverlappingInputs and FindReaders visit every candidate file (no break/return out of the scan other than a failing exit). Snapshot.Load leaves its scan of the selected files only with an error; FixedOffsetDecoder.GetBlock accepts an empty range (a key stored with an empty value).",
+ 'C16': "Also: a family group is the rows inside the family range of the group's first row, tested with TimeRange.Contains against the range built from that same timestamp, and handed out with that timestamp's family time; the line-protocol parser resets its row builder on every path from the loop test to the next line. The stored name hash is computed from exactly the namespace and name strings that are written into the row (after enrichment and sanitizing); the broker's write interval is element 0 of the very list that was sorted before.",
+ 'C17': "Also: no parser function takes a list from a helper that fills it inside a range over a map (e.g. strutil.DeDupStringSlice). A lexer / parser taken from the pool is put back only after the last step of the parse that uses it (token stream creation, parser.Statement(), tree walk).",
  'C19': "Also: on the query execution path recover() is called only by the two designated handlers (or a function they defer); planNode.ExecuteWithStats returns the operator's own error and its stats closure does not touch it.",
+}
+
+TECH_EXTRA = {
+ 'C03': "; must-fact guard of the merge scanner's advance, provenance of decoder ranges and encoder output in the series merger",
+ 'C04': "; provenance of decoder ranges in the series merger",
+ 'C05': "; edge-fact path rule for the cached index page, constant/fact bound of the mapped page size",
+ 'C06': "; lock-hold atomicity of group creation",
+ 'C07': "; path-sensitive boolean constant propagation over the expiry flag",
+ 'C08': "; path-sensitive boolean constant propagation over the expiry flag",
+ 'C09': "; written==marked rule of the schema flush, accumulator freshness of the schema merger",
+ 'C10': "; early-exit scan of the grouping scanner loops",
+ 'C11': "; argument-order and query-position provenance rules, descriptor symmetry of the aggregator's target range",
+ 'C12': "; call-graph (CHA) search for producers of ErrNotFound below per-shard plan nodes, load-after-store order of the range alignment",
+ 'C14': "; sentinel sign agreement, guarded raise of the offset maximum, inclusive-range fact at GetBlock's success exit",
+ 'C15': "; early-exit scan of Snapshot.Load",
+ 'C16': "; provenance of the name-hash inputs and of the write interval (sorted list = list read)",
+ 'C17': "; typestate of the pooled lexer/parser (no use reachable after release)",
+ 'C18': "; early-exit scan of the handlers, alias walk proving ElectLeader writes no argument memory",
 }
 
 NA = {
@@ -133,6 +152,7 @@ m = {
 for i in ids:
     if i in CLAIMED:
         tech, text = CLAIMED[i]
+        tech = tech + TECH_EXTRA.get(i, '')
         if i in EXTRA:
             text = text + " " + EXTRA[i]
         m["checks"].append({
